@@ -299,18 +299,6 @@ func genRTCase(t *rapid.T) RTCase {
 	for i := 0; i < n; i++ {
 		c.Reqs = append(c.Reqs, genExch(t, big))
 	}
-	// Spec-driven clients advertise larger windows than the connection enforces (open C12 finding): keep the total
-	// response volume of one connection far below the enforced 512 KiB / 768 KiB.
-	if strings.HasPrefix(c.Client, "spec:") {
-		budget := 400 << 10
-		for i := range c.Reqs {
-			if c.Reqs[i].RBody > budget {
-				vf.U("h3-roundtrip").Excluded("C12/flow-control/window")
-				c.Reqs[i].RBody = budget
-			}
-			budget -= c.Reqs[i].RBody
-		}
-	}
 	c.Faults = genFaults(t, 6)
 	if rapid.IntRange(0, 5).Draw(t, "lossy") == 0 {
 		from := rapid.IntRange(0, 400).Draw(t, "loss_from")
@@ -675,7 +663,11 @@ func checkRT(c RTCase, u *vf.Unit) *vf.Verdict {
 		u.Class("isolated")
 		return isolate("h3-roundtrip", c, u)
 	}
-	return runRT(c, u)
+	v := runRT(c, u)
+	if v == nil && len(c.Reqs) == 2 && len(c.Faults) > 0 && u.WantSample() {
+		u.Sample(c)
+	}
+	return v
 }
 
 func init() {
